@@ -5,9 +5,9 @@ VERIF = os.path.dirname(os.path.dirname(os.path.abspath(__file__)))
 
 CHECKS = {
  "C12": dict(cat="model_checking",
-   text="Decision.tla defines the threshold by an exact integer inequality and the uniformity statistic through the real layer; TLC enumerates all palette multisets (model invariants + replay vectors) and validates recorded outputs of detect.Threshold for s up to 10^6 and detect.ThresholdQ on seeded long lists. Exhaustive on the model, exhaustive over s in thorough, sampled over lists.",
+   text="Decision.tla defines the threshold by an exact integer inequality and the uniformity statistic through the real layer; TLC enumerates all palette multisets (model invariants + replay vectors) and validates recorded outputs of detect.Threshold for s up to 10^6 and detect.ThresholdQ on seeded long lists. Exhaustive on the model, exhaustive over s in thorough, sampled over lists. For ALL s the threshold predicate is proved monotone, true at t=s and false at t=-1 with TLAPS (DecisionProofs.tla, 47 obligations), so the threshold exists uniquely in 0..s.",
    ref="4 C12", note="trusts RealFn.class (Q(a,x) closed form), TLC, the Go harness; float results compared at 1e-12",
-   tech="TLA+ spec (Decision/GenDecision) model-checked by TLC; TLC-generated vectors replayed into Go; Go traces validated by TLC (TraceDecision)"),
+   tech="TLA+ spec (Decision/GenDecision) model-checked by TLC; TLAPS proofs of the threshold predicate; TLC-generated vectors replayed into Go; Go traces validated by TLC (TraceDecision)"),
 }
 CHECKS.update({
  "C07": dict(cat="model_checking",
@@ -15,7 +15,7 @@ CHECKS.update({
    ref="4 C07", note="stub runners are installed through the exported registry randomness.TestMethodArr; trusts RealFn, TLC, the Go driver",
    tech="TLA+ spec (Decision/GenVerdict) model-checked by TLC; TLC-generated result matrices replayed through stub runners into the real workflows; execution traces validated by TLC (TraceWorkflow)"),
  "C08": dict(cat="model_checking",
-   text="WorkflowFast.tla models the worker protocol (one action per critical section) and is checked exhaustively for W<=4, S<=5 with all short-read choices (safety + liveness under weak fairness; as-is defect switches must violate). The real Fast workflows are bound by TLC-validated traces of free-running executions with injected delays for NumCPU in {1,2,3,16}, a sequential/parallel differential in stub and real-runner mode, and a -race build. Interleavings of the real code are sampled, not enumerated.",
+   text="WorkflowFast.tla models the worker protocol (one action per critical section) and is checked exhaustively for W<=4, S<=5 with all short-read choices (safety + liveness under weak fairness; as-is defect switches must violate). The real Fast workflows are bound by TLC-validated traces of free-running executions with injected delays for NumCPU in {1,2,3,16}, of gated schedule families (barrier, straggler) and of replayed TLC-simulated behaviours (SimFast.tla: short-read sizes through the reader, sample completion order through gates), a sequential/parallel differential in stub and real-runner mode, and a -race build. Interleavings of the real code are sampled, not enumerated.",
    ref="4 C08", note="schedules of the real code are sampled; taskset controls NumCPU; race detector trusted for race freedom on the executions run",
    tech="TLA+ spec (WorkflowFast) model-checked by TLC incl. liveness; trace validation of free-running real executions (TraceWorkflow); sequential/parallel differential; go -race"),
 })
@@ -55,8 +55,8 @@ CHECKS.update({
  "C18": dict(cat="model_checking", text="Purity.tla models invocations as processes with read/write footprints (input, tables, private scratch) and TLC checks non-interference over all interleavings of 2-3 invocations, with shared scratch and input-writing as negative controls. TLC-generated plans (2..64 goroutines x any mix of the 15 runners and the two rounds, shared/private inputs, start barrier) are run free: results bit-identical to solitary results, inputs hashed, table probe; repeated in a -race build. Per-call input purity and determinism are also checked in every C01-C05/C15 replay.", ref="4 C18", note="footprints are bound observationally (snapshots, bit identity, race detector); schedules sampled", tech="TLA+ footprint model (Purity) model-checked by TLC; TLC-generated concurrency plans replayed into Go (plain and -race); outcomes validated by TLC (TracePurity)"),
 })
 CHECKS.update({
- "C13": dict(cat="model_checking", text="Detector.tla models the rddetector pipeline (walker, n workers, spawned senders, single writer, WaitGroup) and TLC checks termination and exactly-one-row-per-file over all interleavings for <=4 (5) files and <=3 workers (miscounted wg.Add as negative control). The real binary is run on generated directories (scale x file count x -n 1..64 x nested/.dat/extra files x GOMAXPROCS x report path); TLC validates each run: header structure (P/Q pairs naming the same test and parameter, every test of the scale), one row per sample file, column count, and every value against the library value the header names to 6 decimals; the 10^8-bit worker is driven directly on smaller files.", ref="4 C13", note="interleavings inside the separate process are not controlled; 10^8 scale at worker-function level on 10^5 (10^6)-bit files", tech="TLA+ pipeline model (Detector) model-checked by TLC incl. liveness; report schema (Columns); runs of the real binary validated by TLC (TraceDetector)"),
- "C20": dict(cat="model_checking", text="Gen.tla models main and the writer goroutines over a file-system map and TLC checks termination, files exactly random0..random(s-1).bin complete in the requested directory and nothing elsewhere (ignoring -o as negative control). The real rdgen binary runs in scratch directories for s x n x output path (default, relative, nested, absolute, pre-existing with stale files) x taskset/GOMAXPROCS with tree snapshots; TLC validates names, count, sizes, distinct contents, location; generated directories are handed to the real rddetector.", ref="4 C20", note="writer interleavings inside the process are not controlled", tech="TLA+ model (Gen) model-checked by TLC incl. liveness; runs of the real binary validated by TLC (TraceGen)"),
+ "C13": dict(cat="model_checking", text="Detector.tla models the rddetector pipeline (walker, n workers, spawned senders, single writer, WaitGroup) and TLC checks termination and exactly-one-row-per-file over all interleavings for <=4 (5) files and <=3 workers (miscounted wg.Add as negative control); the accounting invariant (every file in exactly one place, WaitGroup = rows still to write) is discharged inductively by Apalache for 4 files/3 workers (6/4 in thorough), i.e. at unbounded depth. The real binary is run on generated directories (scale x file count x -n 1..64 x nested/.dat/extra files x GOMAXPROCS x report path); TLC validates each run: header structure (P/Q pairs naming the same test and parameter, every test of the scale), one row per sample file, column count, and every value against the library value the header names to 6 decimals; the 10^8-bit worker is driven directly on smaller files.", ref="4 C13", note="interleavings inside the separate process are not controlled; 10^8 scale at worker-function level on 10^5 (10^6)-bit files", tech="TLA+ pipeline model (Detector) model-checked by TLC incl. liveness; inductive invariant by Apalache (DetectorApa); report schema (Columns); runs of the real binary validated by TLC (TraceDetector)"),
+ "C20": dict(cat="model_checking", text="Gen.tla models main and the writer goroutines over a file-system map and TLC checks termination, files exactly random0..random(s-1).bin complete in the requested directory and nothing elsewhere (ignoring -o as negative control); an inductive invariant is discharged by Apalache (GenApa.tla). The real rdgen binary runs in scratch directories for s x n x output path (default, relative, nested, absolute, pre-existing with stale files) x taskset/GOMAXPROCS with tree snapshots; TLC validates names, count, sizes, distinct contents, location; generated directories are handed to the real rddetector.", ref="4 C20", note="writer interleavings inside the process are not controlled", tech="TLA+ model (Gen) model-checked by TLC incl. liveness; inductive invariant by Apalache (GenApa); runs of the real binary validated by TLC (TraceGen)"),
 })
 PENDING = {}
 
